@@ -70,6 +70,13 @@ def _arg(sel: int, v: int, w: int, f: float, t: str, symbolic_str: bool = True):
         return (v, w)
     if sel == 12:
         return {"p": v}
+    if sel in (13, 14):
+        # a configuration built from ANOTHER schema whose equally named fields hold values the declared fields forbid
+        foreign = Schema()
+        foreign.v = StringField(default="hello")
+        foreign.p = StringField(default="hello")
+        foreign.q = StringField(default="q")
+        return foreign() if sel == 13 else [foreign()]
     skip("sel")
 
 
@@ -272,7 +279,7 @@ def _mk(target: str, route: str):
 
     meta = dict(prop="C01", name="route_%s_%s" % (route, target), group="route_%s" % route, sites=tuple(sites),
                 encodes=ENC, budget={"quick": 150, "thorough": 400},
-                what="one %s operation on a %s field with an argument of 13 shapes (None/bool/int/float/str/lists/"
+                what="one %s operation on a %s field with an argument of 15 shapes (None/bool/int/float/str/lists/"
                      "maps/tuple): invariant, bystanders unchanged, accepted read-back == normal form" % (route, target))
 
     def prune(sel, v, w, f, t):
@@ -283,7 +290,7 @@ def _mk(target: str, route: str):
         if sel not in (3, 4, 6, 9, 11) and w != 0:
             skip("second int unused")
 
-        if sel in (0, 1, 3, 4, 10) and v != 0:
+        if sel in (0, 1, 3, 4, 10, 13, 14) and v != 0:
             skip("int unused")
 
     if target == "int":
@@ -291,7 +298,7 @@ def _mk(target: str, route: str):
         def ob_int(sel: int, v: int, w: int, t: str,
                    a: Optional[int], b: Optional[int], d: Optional[int]) -> bool:
             """
-            pre: 0 <= sel <= 12 and len(t) <= 2
+            pre: 0 <= sel <= 14 and len(t) <= 2
             pre: (a is None or -50 <= a <= 50) and (b is None or -50 <= b <= 50)
             pre: d is None
             post: _
@@ -306,7 +313,7 @@ def _mk(target: str, route: str):
         @obligation(**meta)
         def ob_str(sel: int, v: int, w: int, t: str, lo: Optional[int], hi: Optional[int]) -> bool:
             """
-            pre: 0 <= sel <= 12 and len(t) <= 2
+            pre: 0 <= sel <= 14 and len(t) <= 2
             pre: (lo is None or 0 <= lo <= 2) and (hi is None or 2 <= hi <= 3)
             post: _
             """
@@ -316,7 +323,7 @@ def _mk(target: str, route: str):
         @obligation(**meta)
         def ob(sel: int, v: int, w: int, t: str) -> bool:
             """
-            pre: 0 <= sel <= 12 and len(t) <= 2
+            pre: 0 <= sel <= 14 and len(t) <= 2
             post: _
             """
             prune(sel, v, w, 0.0, t)
